@@ -66,6 +66,12 @@ def imports_of(units, s, memo=None):
     return res
 
 
+def all_scopes(s):
+    yield s
+    for c in s["procs"] + s["ifbodies"] + s["absints"]:
+        yield from all_scopes(c)
+
+
 def own_names(s):
     """keys of the scope's own dictionaries in FORD's insertion order"""
     procs = [p["name"].lower() for p in s["procs"]]
@@ -159,7 +165,8 @@ class Gen:
             if ext.lower() not in later:
                 t["extends"] = ext
         t["comps"] = self.gen_vars(units, root, chain, rng.randint(0, 2), "c")
-        procs_here = self.visible(units, chain, "CProc")
+        generic_names = {g["name"].lower() for x in units + [root] for sc_ in all_scopes(x) for g in sc_["generics"]}
+        procs_here = [n for n in self.visible(units, chain, "CProc") if n not in generic_names]
         if s["kind"] == "module" and procs_here:
             for _ in range(rng.randint(0, 2)):
                 b = {"name": self.fresh("b"), "deferred": False, "proto": None, "targets": []}
@@ -167,9 +174,12 @@ class Gen:
                 if r < 0.3:
                     b["deferred"] = True
                     b["proto"] = self.ref(units, root, chain, "proc")["id"]
+                    if b["proto"].lower() in generic_names:
+                        b["proto"] = rng.choice(UNDECLARED["proc"])
                 else:
-                    pool = procs_here if rng.random() < 0.8 else ((self.anywhere(units, root, "CProc") if self.p_invisible else [])
-                                                                  + UNDECLARED["proc"])
+                    pool = procs_here if rng.random() < 0.8 else (
+                        [n for n in (self.anywhere(units, root, "CProc") if self.p_invisible else []) if n not in generic_names]
+                        + UNDECLARED["proc"])
                     b["targets"] = [spell(rng, rng.choice(pool))]
                 t["binds"].append(b)
             own_routines = [p["name"] for p in s["procs"]]
@@ -237,11 +247,14 @@ class Gen:
         units = []
         nmod = rng.choice([1, 2, 2, 3])
         for i in range(nmod):
-            u = new_scope(rng.choice(["ma", "mb", "mc", "solver", "Solver2"]) if False else "m" + "abc"[i], "module")
+            u = new_scope(spell(rng, "m" + "abc"[i], 0.3), "module")
             units.append(u)
             self.gen_scope(units, u, [u], 0)
             if rng.random() < 0.3:
                 pool = own_names(u)["CType"] + own_names(u)["CProc"]
+                # a PRIVATE statement reaches only the first entity of a name shared by a type and
+                # its constructor interface (C04): do not pick such a name
+                pool = [n for n in pool if pool.count(n) == 1]
                 if pool:
                     u["private"] = [rng.choice(pool)]
         if rng.random() < 0.6:
@@ -249,6 +262,20 @@ class Gen:
             if u["name"] not in [x["name"] for x in units]:
                 units.append(u)
                 self.gen_scope(units, u, [u], 0)
+        if rng.random() < 0.25:
+            # a block data unit: FortranBlockData.correlate builds its dictionaries from scratch
+            u = new_scope("bdata", "blockdata")
+            units.append(u)
+            mods = [x for x in units if x["kind"] == "module"]
+            if mods and rng.random() < 0.7:
+                u["uses"].append({"target": spell(rng, rng.choice(mods)["name"]), "only": None})
+            for _ in range(rng.randint(0, 2)):
+                n = self.pick(TYPE_NAMES, self.p_reuse)
+                if n.lower() not in own_names(u)["CType"]:
+                    u["types"].append({"name": n, "extends": None, "comps": [], "binds": [], "finals": []})
+            u["types"] = [self.gen_type(units, u, [u], t["name"]) for t in u["types"]]
+            u["vars"] = [v for v in self.gen_vars(units, u, [u], rng.randint(1, 3), "v")
+                         if not (v["ref"] and v["ref"]["what"] == "proc")]
         if rng.random() < 0.7:
             u = new_scope("main", "program")
             units.append(u)
@@ -300,7 +327,7 @@ def render_type(t, ind):
 
 def render_scope(s, ind=""):
     kw = {"module": "module", "program": "program", "subroutine": "subroutine", "ifbody": "subroutine",
-          "absbody": "subroutine"}[s["kind"]]
+          "absbody": "subroutine", "blockdata": "block data"}[s["kind"]]
     head = f"{ind}{kw} {s['name']}"
     if kw == "subroutine":
         head += "(" + ", ".join(a["name"] for a in s["args"]) + ")"
@@ -380,7 +407,7 @@ def scope_events(units, s, path):
     """the events of FORD's traversal of scope s (children: functions, subroutines, interface bodies,
     abstract interface bodies)"""
     path = path + [s["name"].lower()]
-    kind = {"module": "KUnit", "program": "KUnit", "subroutine": "KProc" if len(path) > 1 else "KUnit",
+    kind = {"module": "KUnit", "program": "KUnit", "blockdata": "KUnit", "subroutine": "KProc" if len(path) > 1 else "KUnit",
             "ifbody": "KBody", "absbody": "KBody"}[s["kind"]]
     on = own_names(s)
     imps = []
